@@ -89,8 +89,9 @@ fn classes(s: &str) -> Vec<&'static str> {
 
 fn rand_string(rng: &mut StdRng) -> String {
     let special = ["\"", "'", "\\", "\n", "\t", "\u{0}", "\u{1}", "\u{1f}", ";--", "';--", "?1", "$x", "%", "_", "{", "}", "[", "]", ":", ",", "é", "漢", "😀", "\u{202e}", " OR 1=1 ", "'); DROP TABLE _node;--", "\\\"", "\\n", "\\u0041", "\"}", "null", "true"];
-    match rng.gen_range(0..12) {
+    match rng.gen_range(0..13) {
         0 => String::new(),
+        12 => ["who", "v", "id", "name", "t"][rng.gen_range(0..5)].to_string(),
         1 => "x".repeat(65536),
         2 => {
             // arbitrary unicode scalars
@@ -478,6 +479,39 @@ fn run_case<'a>(ctx: &'a Ctx, case: u64, acc: &'a mut Acc) -> CaseFut<'a> {
                     if depends {
                         acc.violation(format!("C04/statement-structure-depends-on-a-literal/{}", v.ty()), witness("the compiled SQL differs from the SQL of a benign literal", json!({"sql": a.0.chars().take(300).collect::<String>()})));
                         violated = true;
+                    }
+                }
+            }
+            // R2b: a string literal whose text is the name of a variable of the same request (both orders): the literal
+            // means its text, the variable means the value given for it
+            if let Val::S(s) = &v {
+                let ident = !s.is_empty() && s.len() < 20 && s.chars().all(|c| c.is_ascii_alphabetic()) ;
+                if ident {
+                    for order in ["literal-first", "variable-first"] {
+                        let mut p = Parameters::new();
+                        p.add(s, id.clone()).unwrap();
+                        let text = if order == "literal-first" {
+                            format!("query {{ r: V({} = \"{}\", id = ${}){{ id }} }}", fld, s, s)
+                        } else {
+                            format!("query {{ r: V(id = ${}, {} = \"{}\"){{ id }} }}", s, fld, s)
+                        };
+                        acc.count(&format!("position/String/literal-equal-to-a-variable-name/{}", order), 1);
+                        match db.query(&text, p) {
+                            Ok(r) => {
+                                let ids: Vec<String> = r["r"].as_array().map(|a| a.iter().filter_map(|x| x["id"].as_str().map(|s| s.to_string())).collect()).unwrap_or_default();
+                                if ids != vec![id.clone()] {
+                                    acc.violation(
+                                        format!("C04/equality-filter-misses-the-row/String/literal-equal-to-a-variable-name/{}", order),
+                                        witness("(field = \"name\", id = $name) does not return the row whose field holds the text and whose id is the value given for the variable", json!({"request": text, "returned": ids.len()})),
+                                    );
+                                    violated = true;
+                                }
+                            }
+                            Err(e) => {
+                                acc.violation(format!("C04/error-on-filter/String/literal-equal-to-a-variable-name/{}", order), witness("request failed", json!({"request": text, "error": e})));
+                                violated = true;
+                            }
+                        }
                     }
                 }
             }
